@@ -755,3 +755,21 @@ spec!(
     forms(p, v): [p.push(v), p.push(v.clone()), p.push(v.as_slice())],
     reserve(rp, vs): [],
 );
+
+spec!(
+    OptSliceU128, "OptionRegion<SliceRegion<MirrorRegion<u128>>>", OptionRegion<SliceRegion<MirrorRegion<u128>>>,
+    clone: yes, serde: yes, heap: yes, resreg: yes, copy: yes, debug: yes,
+    dense: no, collapse_top: no, presize: yes, plain: yes,
+    byref(x): x,
+    forms(p, v): [p.push(v), p.push(v.clone()), p.push(v.as_ref()), p.push(v.as_deref())],
+    reserve(rp, vs): [rp.reserve_items(vs.iter())],
+);
+
+spec!(
+    ColsI128, "ColumnsRegion<MirrorRegion<i128>>", ColumnsRegion<MirrorRegion<i128>>,
+    clone: yes, serde: yes, heap: yes, resreg: yes, copy: yes, debug: yes,
+    dense: yes, collapse_top: no, presize: no, plain: yes,
+    byref(x): x,
+    forms(p, v): [p.push(v), p.push(v.clone()), p.push(v.as_slice()), p.push(PushIter(v.iter()))],
+    reserve(rp, vs): [],
+);
